@@ -1,5 +1,6 @@
 (* C19/Properties.v — property theorems only. Each is closed by a lemma of C19/Proofs.v. *)
 From Relic Require Import Base.Prelude Base.Enc Generated.C19_gen C19.Model C19.Proofs.
+From Coq Require Import Permutation Sorted.
 
 (* ---- ECDSA signature values: r||s *)
 (* relic reads back what it writes (sign/verify self-consistency) *)
@@ -60,6 +61,33 @@ Theorem spec_child_congruence : forall e r s t a l1 c c' l2,
   exc_node (fst (child_env e r s a)) (snd (child_env e r s a)) c = exc_node (fst (child_env e r s a)) (snd (child_env e r s a)) c' ->
   exc_node e r (Elem s t a (l1 ++ c :: l2)) = exc_node e r (Elem s t a (l1 ++ c' :: l2)).
 Proof. exact C19.Proofs.spec_child_congruence. Qed.
+(* the specification looks at its environments only through lookups *)
+Theorem exc_node_ext : forall n e e' r r', env_eq e e' -> env_eq r r' -> exc_node e r n = exc_node e' r' n.
+Proof. exact C19.Proofs.exc_node_ext. Qed.
+(* attribute order (namespace declarations included) is irrelevant; the side conditions are namespace well-formedness:
+   one declaration per prefix, distinct expanded attribute names *)
+Theorem spec_attr_order_invariant : forall e r s t a a' ch,
+  Permutation a a' ->
+  NoDup (map fst (own_decls a)) ->
+  NoDup (map (fun x => (attr_uri (env_add e (own_decls a)) x, a3_key x)) (plain_attrs a)) ->
+  exc_node e r (Elem s t a ch) = exc_node e r (Elem s t a' ch).
+Proof. exact C19.Proofs.spec_attr_order_invariant. Qed.
+(* a namespace declaration that nothing below visibly utilises can be added or removed *)
+Theorem spec_unused_decl_invariant : forall e r s t a ch q v,
+  has_decl q a = false -> usesP s a q = false -> existsb (uses_in_subtree q) ch = false ->
+  exc_node e r (Elem s t (decl_attr (q, v) :: a) ch) = exc_node e r (Elem s t a ch).
+Proof. exact C19.Proofs.spec_unused_decl_invariant. Qed.
+(* hence, inside K, relic's canonical form does not depend on attribute order either *)
+Theorem relic_attr_order_invariant_on_K : forall ctx s t a a' ch,
+  inK ctx (Elem s t a ch) = true -> inK ctx (Elem s t a' ch) = true -> Permutation a a' ->
+  NoDup (map (fun x => (attr_uri (env_add (ctx_env ctx) (own_decls a)) x, a3_key x)) (plain_attrs a)) ->
+  relic_c14n ctx (Elem s t a ch) = relic_c14n ctx (Elem s t a' ch).
+Proof. exact C19.Proofs.relic_attr_order_invariant_on_K. Qed.
+(* 6. sort.Slice is unstable and its algorithm unspecified: with distinct attribute names every outcome it may
+      produce is the list the model computes *)
+Theorem sort_slice_unique : forall l l',
+  NoDup (attr_names l) -> Permutation l' l -> StronglySorted (fun x y => attr_lt y x = false) l' -> l' = isort attr_lt l.
+Proof. exact C19.Proofs.sort_slice_unique. Qed.
 Theorem relic_comment_invariant : forall ctx s t a l1 d l2,
   relic_c14n ctx (Elem s t a (l1 ++ Comment d :: l2)) = relic_c14n ctx (Elem s t a (l1 ++ l2)).
 Proof. exact C19.Proofs.relic_comment_invariant. Qed.
